@@ -2,7 +2,7 @@
  * Bounded-exhaustive: every message of 1..K units over 17 unit kinds (commands that succeed / fail, queries
  * that emit 0/1/2/4 results of rotating types and then succeed, fail with or without an own error, or leave a
  * parameter unread, an undefined header, an invalid unit, an empty unit), each executed on a fresh context and
- * after each of 12 predecessor messages (histories that leave separator / block accounting state behind).
+ * after each of 13 predecessor messages (histories that leave separator / block accounting state or a full error queue behind).
  * Oracle: framing model of the statement.  A unit responds iff it is a query whose handler emitted at least
  * one result or completed without error; expected bytes = the responding units' result lists joined by ','
  * within and ';' between units, then exactly one line terminator and one flush iff any unit responded.
@@ -81,20 +81,22 @@ static const scpi_command_t cmds[] = {
     SCPI_CMD_LIST_END
 };
 
-static const char * preds[] = { "", "Q1?\n", "Q1?;Q0E?\n", "Q1E?\n", "Q2X?\n", "QPART?\n", "@\n", "UNDEF?\n", "Q1P? 5\n", "C0;CE\n", "Q4?;Q0X?\n", "Q0?\n", "Q1?;QPART?\n" };
+static const char * preds[] = { "", "Q1?\n", "Q1?;Q0E?\n", "Q1E?\n", "Q2X?\n", "QPART?\n", "@\n", "UNDEF?\n", "Q1P? 5\n", "C0;CE\n", "Q4?;Q0X?\n", "Q0?\n", "Q1?;QPART?\n",
+    /* fills the error queue (capacity 32) completely: every later error overflows */
+    "CE;CE;CE;CE;CE;CE;CE;CE;CE;CE;CE;CE;CE;CE;CE;CE;CE;CE;CE;CE;CE;CE;CE;CE;CE;CE;CE;CE;CE;CE;CE;CE;CE;CE\n" };
 #define NPRED ((int) (sizeof preds / sizeof preds[0]))
 
 static unsigned long long n_msgs = 0, n_responding = 0, n_silent = 0, n_units = 0, n_sep = 0;
 static tc_t T;
 
 static void run_message(const int * units, int k, int pred) {
-    char msg[256], exp[1024];
+    char msg[512], exp[1024];
     size_t ml = 0, el = 0;
     int u, responded = 0, errs = 0;
     for (u = 0; u < k; u++) { if (u) msg[ml++] = ';'; ml += (size_t) sprintf(msg + ml, "%s", utext[units[u]]); }
     msg[ml++] = '\n';
     tc_reinit(&T, cmds);
-    if (pred) { tr_reset(); SCPI_Input(&T.ctx, preds[pred], (int) strlen(preds[pred])); tc_drain(&T); }
+    if (pred) { tr_reset(); SCPI_Input(&T.ctx, preds[pred], (int) strlen(preds[pred])); if (pred != NPRED - 1) tc_drain(&T); }
     rot_model = rot_impl;
     tr_reset();
     mc_case_s[0] = (const unsigned char *) msg; mc_case_n[0] = ml; mc_case_i[0] = pred;
@@ -145,6 +147,7 @@ static void run_message(const int * units, int k, int pred) {
     }
     if (tc_flushes != (responded ? 1 : 0)) { mc_viol("c06/flush-count", "after [%s] message [%s]: %d flushes, %d responding units", mc_es(preds[pred]), mc_e(msg, ml), tc_flushes, responded); return; }
     if (responded) { char f[32]; snprintf(f, sizeof f, "F@%u;", (unsigned) el); if (!strstr(TR, f) ) { mc_viol("c06/flush-position", "message [%s]: flush not at the end of the response: trace [%s]", mc_e(msg, ml), mc_es(TR)); return; } }
+    if (pred == NPRED - 1) { int e2, real = 0; for (e2 = 0; e2 < tc_nerr; e2++) if (tc_errs[e2] != SCPI_ERROR_QUEUE_OVERFLOW) real++; tc_nerr = real; }
     if (tc_nerr != errs) { mc_viol("c06/error-count", "after [%s] message [%s]: %d errors raised, model %d; trace [%s]", mc_es(preds[pred]), mc_e(msg, ml), tc_nerr, errs, mc_es(TR)); return; }
     mc_outcome(mc_hash(OUT, OUTN, (uint64_t) tc_flushes));
 }
